@@ -155,7 +155,7 @@ def judgeCore (s : JState) (e : Ev) : JState :=
   | .qclear => match s.q with
     | some q => { s with q := some { q with contents := [] } }
     | none => s
-  | .wnew w => s.setW w {}
+  | .wnew w fin => s.setW w { exited := fin }
   | .wstate w st => match s.getW w with
     | some k =>
       if k.exited then (if st = .stopped then s else s.flag s!"state-running-after-exit worker={w}")
